@@ -319,3 +319,18 @@ package protocol
 //@   ensures forall k :: 0 <= k && k < result0 ==> b[k] == pgbyte(pages, off + int64(k))
 //@   option timeout 240
 //@   loop 0 unroll 3
+
+//@ property C04
+
+// Encoder selection: in a flexible version every string, byte string and array is compact; a nullable field keeps its null
+// encoding (a null compact string is 0x00, an empty one 0x01), whatever other tags the field carries.
+//@ func stringEncodeFuncOf
+//@   ensures flexible && tag.Nullable ==> isfunc(result, "(*encoder).encodeCompactNullString")
+//@   ensures flexible && !tag.Nullable ==> isfunc(result, "(*encoder).encodeCompactString")
+//@   ensures !flexible && tag.Nullable ==> isfunc(result, "(*encoder).encodeNullString")
+//@   ensures !flexible && !tag.Nullable ==> isfunc(result, "(*encoder).encodeString")
+//@ func bytesEncodeFuncOf
+//@   ensures flexible && tag.Nullable ==> isfunc(result, "(*encoder).encodeCompactNullBytes")
+//@   ensures flexible && !tag.Nullable ==> isfunc(result, "(*encoder).encodeCompactBytes")
+//@   ensures !flexible && tag.Nullable ==> isfunc(result, "(*encoder).encodeNullBytes")
+//@   ensures !flexible && !tag.Nullable ==> isfunc(result, "(*encoder).encodeBytes")
